@@ -257,7 +257,7 @@ def class1_class2_blend_replaces_the_heavy_metal_of_the_material(ctx, feeds, for
 #   densityTools.expandElementalMassFracsToNuclides(mf, [(elements.bySymbol["ZR"], None)]); sum(mf.values()) -> 0.95
 # Patch: /tmp/scratch/triage/KNOWN_DEFECT_explicit_isotope_next_to_its_element_is_overwritten.diff; the instances that
 # name an element together with one of its isotopes are switched on when the flag is False.
-KNOWN_DEFECT_explicit_isotope_next_to_its_element_is_overwritten = True
+KNOWN_DEFECT_explicit_isotope_next_to_its_element_is_overwritten = False  # repaired in /repo (fix: d14e657)
 _ELEMENT_AND_ISOTOPE = [] if KNOWN_DEFECT_explicit_isotope_next_to_its_element_is_overwritten else \
     [dict(nucs=["U238", "ZR90", "ZR"])]
 
